@@ -28,6 +28,9 @@ def check(prog, rep):
     Z.check_index_space(prog, rep, allf, entry)
     Z.check_flatten_order(prog, rep, allf, entry)
     Z.check_positional_id_use(prog, rep, allf, entry)
+    Z.check_selection(prog, rep, allf, entry, 'zone_ids')
+    Z.check_selection(prog, rep, allf, entry, 'cat_ids')
+    Z.check_strides(prog, rep, m, 'stats/crosstab[dask]')     # every block is strided against the global ids: the stride routine is part of the dask statement
     rep.floor('Z6a', 10)
     rep.floor('Z6b', 6)
     rep.floor('Z6c', 3)
